@@ -121,6 +121,14 @@ def replay(recs):
                          np.asarray(mk().contains(g.PointCollection(np.array(r["off"])))) if r["off"] else np.array([False])),
                 lambda v: bool(np.all(v[0])) and not bool(np.any(v[1])))
             chk("Circle.center", st, case, c, lambda: mk().center, lambda x: same_class(x.array, c + [1]))
+            from ..moved import mc, motions, mq, warm
+            for mname, mv, T, Ti in motions(2):
+                c2 = mc(T, c)
+                M2 = mq(Ti, r["M"])
+                chk(f"Circle/read-then-moved/{mname}", st, {**case, "moved by": mname}, {"center": c2, "radius": rad},
+                    lambda mv=mv: (lambda y: (y.center, y.radius, y.foci, y))(mv(warm(mk()))),
+                    lambda v, c2=c2, M2=M2: same_class(v[0].array, c2 + [1]) and abs(v[1] - rad) <= TOL * rad and
+                    all(same_class(f.array, c2 + [1]) for f in v[2]) and mcls(v[3], M2))
             chk("Circle.radius", st, case, rad, lambda: mk().radius, lambda x: abs(x - rad) <= TOL * rad)
             chk("Circle.area", st, case, math.pi * rad ** 2, lambda: mk().area, lambda x: abs(x - math.pi * rad ** 2) <= TOL * math.pi * rad ** 2)
             chk("Sphere(2D)", st, case, r["M"], lambda: g.Sphere(g.Point(*c), rad), lambda x: mcls(x, r["M"]))
@@ -137,6 +145,14 @@ def replay(recs):
                          np.asarray(mk().contains(g.PointCollection(np.array(r["off"])))) if r["off"] else np.array([False])),
                 lambda x: bool(np.all(x[0])) and not bool(np.any(x[1])))
             if r["ecc"] >= 0:
+                from ..moved import mc, motions, warm
+                for mname, mv, T, Ti in motions(2)[:2]:          # translations: the foci move with the ellipse
+                    e_ = r["ecc"]
+                    base = [[c[0], c[1]]] if h == v else ([[c[0] - e_, c[1]], [c[0] + e_, c[1]]] if h > v else [[c[0], c[1] - e_], [c[0], c[1] + e_]])
+                    exp2 = [mc(T, b) + [1] for b in base]
+                    chk(f"Ellipse.foci/read-then-moved/{mname}", st, {**case, "moved by": mname}, exp2,
+                        lambda mv=mv: mv(warm(mk())).foci,
+                        lambda fs, exp2=exp2: len(fs) == len(exp2) and all(any(same_class(f.array, x) for x in exp2) for f in fs) and all(any(same_class(f.array, x) for f in fs) for x in exp2))
                 e = r["ecc"]
                 if h == v:
                     exp = [[c[0], c[1], 1]]
@@ -166,6 +182,12 @@ def replay(recs):
             chk("Sphere.contains", st, {**case, "p": r["pt"]}, True, lambda: mk().contains(P(r["pt"])), lambda x: bool(x))
             chk("Sphere.contains(off)", st, {**case, "p": c + [1]}, False, lambda: mk().contains(g.Point(*c)), lambda x: not bool(x))
             chk("Sphere.center", st, case, c, lambda: mk().center, lambda x: same_class(x.array, c + [1]))
+            from ..moved import mc, motions, warm
+            for mname, mv, T, Ti in motions(3):
+                c2 = mc(T, c)
+                chk(f"Sphere/read-then-moved/{mname}", st, {**case, "moved by": mname}, {"center": c2, "radius": rad},
+                    lambda mv=mv: (lambda y: (y.center, y.radius))(mv(warm(mk()))),
+                    lambda v, c2=c2: same_class(v[0].array, c2 + [1]) and abs(v[1] - rad) <= TOL * rad)
             chk("Sphere.radius", st, case, rad, lambda: mk().radius, lambda x: abs(x - rad) <= TOL * rad)
             chk("Sphere.volume", st, case, 4 / 3 * math.pi * rad ** 3, lambda: mk().volume, lambda x: abs(x - 4 / 3 * math.pi * rad ** 3) <= TOL * 100)
             chk("Sphere.area", st, case, 4 * math.pi * rad ** 2, lambda: mk().area, lambda x: abs(x - 4 * math.pi * rad ** 2) <= TOL * 100)
